@@ -20,6 +20,27 @@ import logging.config
 import sys
 
 
+def _log(level, msg, args, kwargs):
+    """
+    Log a message, without ever raising.
+
+    We log from inside the trace function, often about something of the application that has just failed. Writing the
+    record runs code of the application again: the text of its objects, and for a traceback the attributes of its
+    exception (its cause, its notes) and of the objects in the failing frame ("Did you mean ..."). The handlers of the
+    logging module contain Exception only, and let RecursionError pass on purpose. A log line that cannot be written
+    must not cost the snapshot that is being collected, nor reach the application.
+
+    :param level: the name of the logging method
+    :param msg: the message to log
+    :param args: the args for the log
+    :param kwargs: the kwargs
+    """
+    try:
+        getattr(logging.getLogger("deep"), level)(msg, *args, **kwargs)
+    except BaseException:
+        pass
+
+
 def warning(msg, *args, **kwargs):
     """
     Log a message at warning level.
@@ -28,7 +49,7 @@ def warning(msg, *args, **kwargs):
     :param args:  the args for the log
     :param kwargs: the kwargs
     """
-    logging.getLogger("deep").warning(msg, *args, **kwargs)
+    _log("warning", msg, args, kwargs)
 
 
 def info(msg, *args, **kwargs):
@@ -39,7 +60,7 @@ def info(msg, *args, **kwargs):
     :param args:  the args for the log
     :param kwargs: the kwargs
     """
-    logging.getLogger("deep").info(msg, *args, **kwargs)
+    _log("info", msg, args, kwargs)
 
 
 def debug(msg, *args, **kwargs):
@@ -50,7 +71,7 @@ def debug(msg, *args, **kwargs):
     :param args:  the args for the log
     :param kwargs: the kwargs
     """
-    logging.getLogger("deep").debug(msg, *args, **kwargs)
+    _log("debug", msg, args, kwargs)
 
 
 def error(msg, *args, **kwargs):
@@ -61,7 +82,7 @@ def error(msg, *args, **kwargs):
     :param args:  the args for the log
     :param kwargs: the kwargs
     """
-    logging.getLogger("deep").error(msg, *args, **kwargs)
+    _log("error", msg, args, kwargs)
 
 
 def exception(msg, *args, exc_info=True, **kwargs):
@@ -73,7 +94,7 @@ def exception(msg, *args, exc_info=True, **kwargs):
     :param exc_info: include exc info in log
     :param kwargs: the kwargs
     """
-    logging.getLogger("deep").exception(msg, *args, exc_info=exc_info, **kwargs)
+    _log("exception", msg, args, dict(kwargs, exc_info=exc_info))
 
 
 def init(cfg=None):
